@@ -1,5 +1,5 @@
 """C02 — only the owning LockId releases; re-entrant depth is exact."""
-from props import engine_common
+from props import engine_common, engine2_common
 from props.c01 import FINISH  # same trusted base
 
 THEOREMS = ["Slock.C02.C02_unlock_refused", "Slock.C02.C02_cancel_wait", "Slock.C02.C02_reentrant_decision", "Slock.C02.C02_relock_effect",
@@ -13,6 +13,8 @@ def run(ctx):
     ctx.audit("Slock.Properties.C02\nimport Slock.Properties.C01", THEOREMS)
     if ctx.tier == "thorough":
         ctx.leanchecker("Slock.Properties.C02")
+    # refused unlock / cancel-wait / re-lock effect / depth ceiling / re-entrancy + unlock decision carried down to the record-level model (stage 2)
+    engine2_common.audit_transfer2(ctx, engine2_common.THEOREMS_SIMT2_C02)
     engine_common.run_engine(ctx, ["C02:"], n_quick=3000, n_thorough=60000)
     ctx.cov["rule"] = ("seeded LOCK/UNLOCK sequences incl. unlocks of queued / expired / never-existing LockIds, unlock-first, cancel-wait, re-locks with all Rcount classes; "
                        "distinct_nontrivial = distinct sequences containing at least one grant")
